@@ -5,5 +5,5 @@ CONSTANTS
   Dev = {}
 INIT Init
 NEXT Next
-INVARIANTS Terminates SingleCopy Closure UsedResourcesCopied
+INVARIANTS ContentEqual Terminates SingleCopy Closure UsedResourcesCopied
 CHECK_DEADLOCK FALSE
